@@ -20,6 +20,20 @@ brute force on every small case.  The check decides, for every generated
 Whether *all* optimal alignments are returned when ``max_number`` does not bind
 is not documented by biotite (the docstring only says that every returned
 alignment has the maximum score), so it is only recorded as a label.
+
+Outcomes that are accepted as alternatives (each shows up as a label):
+
+* a sequence alphabet that the matrix alphabet does not extend: any exception
+  (``rejected_with_<type>``; no exception type is documented), or a result that
+  is the symbol-wise optimum;
+* an empty sequence: a ``ValueError`` (``empty_seq_rejected``; nothing is
+  documented for length 0) or a result that passes all clauses;
+* a local alignment whose optimum is 0: an empty list
+  (``local_zero_optimum_empty_list``) or alignments with score 0.
+
+The affine optimum is the optimum of the adjacency-restricted space: that is
+part of the property statement.  How often the unrestricted optimum is higher
+is recorded as ``affine_unrestricted_optimum_higher``.
 """
 
 import numpy as np
@@ -31,8 +45,10 @@ from vlib import Outcome, Sub, findings
 PROPERTY = "C08"
 RULE = (
     "pairs of sequences (length 0..7 brute-force tier, 0..40 DP tier) over alphabets of 1..5 symbols or "
-    "257..400 symbols (uint16 codes), independent alphabets per sequence, int32 matrices -20..20, linear "
-    "and affine penalties -10..0, global / semi-global / local, max_number 1..50; non-trivial = both "
+    "257..400 symbols (uint16 codes), independent alphabets per sequence, int32 matrices -20..20 (1 in 14: magnitudes 1e6..2e6, label "
+    "large_matrix), linear and affine penalties -10..0, global / semi-global / local (local with both "
+    "terminal_penalty settings), max_number 1..50 or the default 1000, arguments equal to their default "
+    "passed or omitted; sub-check alphabet_fit: LetterAlphabet sequences of length 1..6; non-trivial = both "
     "sequences >= 2 symbols and (an optimal alignment contains a gap or there is more than one optimum)"
 )
 
@@ -79,15 +95,72 @@ def build(case):
     s1.code = np.array(case["s1"], dtype=np.int64)
     s2 = seq.GeneralSequence(alph2)
     s2.code = np.array(case["s2"], dtype=np.int64)
-    scores = np.ascontiguousarray(full_matrix(case), dtype=np.int32)
+    want = np.ascontiguousarray(full_matrix(case), dtype=np.int32)
+    scores = want.copy()
     matrix = align.SubstitutionMatrix(malph1, malph2, scores)
+    held_before = np.array_equal(np.asarray(matrix.score_matrix()), want)
     # the caller's array is a work buffer that is reused afterwards: a SubstitutionMatrix is
     # documented as immutable, so it must not alias it
     try:
         scores[...] = -777
     except ValueError:
         pass  # the constructor made the caller's array read-only: loud, not a wrong result
+    # aliasing is a defect of the matrix class, not of the aligner: it gets its own clause
+    # (a matrix that never held the given scores is left to the score clauses)
+    aliased = held_before and not np.array_equal(np.asarray(matrix.score_matrix()), want)
+    return s1, s2, matrix, aliased
+
+
+def built_or_fail(o, case):
+    s1, s2, matrix, aliased = build(case)
+    if aliased:
+        o.fail(
+            "matrix_aliases_caller_array",
+            "SubstitutionMatrix.score_matrix() changed when the array passed to the constructor was overwritten afterwards",
+        )
+        return None
     return s1, s2, matrix
+
+
+def terminal_flag(case):
+    """terminal_penalty as passed to align_optimal: fixed by the mode, free for local ("no effect")."""
+    if case["mode"] == "local":
+        return bool(case.get("tp", False))
+    return case["mode"] == "global"
+
+
+def align_kwargs(case):
+    gap = gap_of(case)[0]
+    kw = {
+        "gap_penalty": gap,
+        "terminal_penalty": terminal_flag(case),
+        "local": case["mode"] == "local",
+        "max_number": case.get("max_number", 5),
+    }
+    if case.get("omit_defaults"):
+        # the documented defaults: gap_penalty=-10, terminal_penalty=True, local=False, max_number=1000
+        defaults = {"gap_penalty": -10, "terminal_penalty": True, "local": False, "max_number": 1000}
+        for name, dflt in defaults.items():
+            if type(kw[name]) is type(dflt) and kw[name] == dflt:
+                del kw[name]
+    return kw
+
+
+def call_align(o, case, s1, s2, matrix):
+    """align_optimal() for the case; None if the call was rejected in an accepted way."""
+    import biotite.sequence.align as align
+
+    kw = align_kwargs(case)
+    if len(kw) < 4:
+        o.label("default_args_omitted")
+    try:
+        return align.align_optimal(s1, s2, matrix, **kw)
+    except ValueError:
+        if len(case["s1"]) == 0 or len(case["s2"]) == 0:
+            # nothing is documented for sequences of length 0: a deliberate rejection is accepted
+            o.label("empty_seq_rejected")
+            return None
+        raise
 
 
 def model_inputs(case):
@@ -239,7 +312,13 @@ def st_case(maxlen_quick, maxlen_thorough, local_maxlen=None):
                 "gap": draw(st_gap()),
                 "mode": mode,
                 "max_number": draw(st.one_of(st.just(1), st.integers(1, 5), st.integers(1, 50))),
+                # only used for mode "local" ("If local is true, this parameter has no effect")
+                "tp": draw(st.booleans()),
+                "omit_defaults": draw(st.booleans()),
             }
+            # (Hypothesis over-represents 0: the rare class is keyed to another value)
+            if draw(st.integers(0, 9)) == 3:
+                case["max_number"] = 1000  # the default
             return case
 
         return gen().map(narrow)
@@ -250,7 +329,7 @@ def st_case(maxlen_quick, maxlen_thorough, local_maxlen=None):
 # --------------------------------------------------------------------------
 # oracle
 # --------------------------------------------------------------------------
-def check_result(o, case, res, opt, c1, c2, mat, bf=None):
+def check_result(o, case, res, opt, c1, c2, mat, bf, matrix, use_score_fn=True):
     """All clauses of the property on the list returned by align_optimal."""
     import biotite.sequence.align as align
 
@@ -259,30 +338,39 @@ def check_result(o, case, res, opt, c1, c2, mat, bf=None):
     local = mode == "local"
     terminal = mode == "global"
     n, m = len(c1), len(c2)
-    s1, s2, matrix = build(case)
+    max_number = case.get("max_number", 5)
 
-    o.check(isinstance(res, list), "returns_list", lambda: f"returned {type(res).__name__}")
-    o.check(len(res) >= 1, "reports_a_score", "empty result list: no score is reported")
+    if not isinstance(res, list):
+        o.fail("returns_list", f"returned {type(res).__name__}")
+        return False, set(), 0
+    if len(res) == 0 and local and opt == 0:
+        # "A list of alignments": the optimum of this local problem is the empty alignment
+        o.label("local_zero_optimum_empty_list")
+    else:
+        o.check(len(res) >= 1, "reports_a_score", "empty result list: no score is reported")
     o.check(
-        len(res) <= case["max_number"],
+        len(res) <= max_number,
         "at_most_max_number",
-        lambda: f"{len(res)} alignments for max_number={case['max_number']}",
+        lambda: f"{len(res)} alignments for max_number={max_number}",
     )
+    if len(res) > 50:
+        o.label(">50_returned")
     seen = set()
     n_empty = 0
     all_valid = True
     for k, ali in enumerate(res):
-        trace = [tuple(int(v) for v in row) for row in np.asarray(ali.trace).tolist()]
+        raw = np.asarray(ali.trace)
+        # (the shape of an empty trace is not documented: any array without elements is the empty trace)
+        if raw.size != 0 and not (raw.ndim == 2 and raw.shape[1] == 2):
+            all_valid = False
+            o.fail("trace_valid", f"alignment {k}: trace shape {raw.shape}")
+            continue
+        trace = [] if raw.size == 0 else [tuple(int(v) for v in row) for row in raw.tolist()]
         rep = iscore(o, ali.score, f"alignment {k} ({mode}, gap={gap})")
         if rep is None:
             all_valid = False
             continue
         o.check_eq(rep, opt, "reported_score_is_optimum", f"alignment {k}: score ({mode}, gap={gap})")
-        o.check(
-            np.asarray(ali.trace).ndim == 2 and (len(trace) == 0 or np.asarray(ali.trace).shape[1] == 2),
-            "trace_valid",
-            lambda: f"alignment {k}: trace shape {np.asarray(ali.trace).shape}",
-        )
         problems = R.validate_trace(trace, n, m, local)
         if problems:
             all_valid = False
@@ -303,6 +391,8 @@ def check_result(o, case, res, opt, c1, c2, mat, bf=None):
             # align.score(terminal_penalty=False) is not defined for a sequence without any
             # aligned symbol (find_terminal_gaps); not part of this property
             o.label("score_fn_skipped_allgap")
+        elif not use_score_fn:
+            pass
         else:
             theirs = align.score(ali, matrix, gap_penalty=gap, terminal_penalty=(terminal or local))
             o.check_eq(int(theirs), mine, "score_function_agrees_with_model", f"alignment {k} trace={trace}")
@@ -351,11 +441,24 @@ def labels_for(o, case, c1, c2, mat, affine, go, ge):
         o.label("all_negative_matrix")
     if all(v == 0 for v in flat):
         o.label("zero_matrix")
+    if any(abs(v) >= 1_000_000 for v in flat):
+        o.label("large_matrix")
+    if case["mode"] == "local" and terminal_flag(case):
+        o.label("local+terminal_penalty")
+    if case.get("max_number") == 1000:
+        o.label("max_number_default_1000")
     if len(mat) != len(mat[0]) or any(mat[r][c] != mat[c][r] for r in range(len(mat)) for c in range(len(mat))):
         o.label("asymmetric_matrix")
     if case.get("narrowed"):
         for fid in case["narrowed"]:
             o.exclude(fid)
+
+
+def label_restriction(o, c1, c2, mat, go, ge, mode, affine, opt):
+    """The property fixes the adjacency-restricted optimum for affine penalties (``opt``);
+    record how often the restriction matters."""
+    if affine and R.dp3(c1, c2, mat, go, ge, mode, False)[0] > opt:
+        o.label("affine_unrestricted_optimum_higher")
 
 
 def run_bruteforce(case):
@@ -371,16 +474,18 @@ def run_bruteforce(case):
     # the DP reference must agree with the enumeration (harness self-check, not a violation)
     dp_opt, dp_count = R.dp3(c1, c2, mat, go, ge, mode, affine)
     assert dp_opt == opt and dp_count == bf["count"], f"reference DP {dp_opt, dp_count} != brute force {opt, bf['count']}"
+    label_restriction(o, c1, c2, mat, go, ge, mode, affine, opt)
     for key in list(bf["optimal"])[:50]:
         s = R.score_trace(R.ops_to_trace(*key), c1, c2, mat, go, ge, terminal_penalty=(mode != "semiglobal"))
         assert s == opt, f"reference scoring {s} != enumeration {opt} for {key}"
 
-    s1, s2, matrix = build(case)
-    res = align.align_optimal(
-        s1, s2, matrix, gap_penalty=gap, terminal_penalty=(mode == "global"), local=(mode == "local"),
-        max_number=case["max_number"],
-    )
-    all_valid, seen, n_empty = check_result(o, case, res, opt, c1, c2, mat, bf)
+    objs = built_or_fail(o, case)
+    if objs is None:
+        return o
+    res = call_align(o, case, *objs)
+    if res is None:
+        return o
+    all_valid, seen, n_empty = check_result(o, case, res, opt, c1, c2, mat, bf, objs[2])
 
     has_gap = any(("X" in k[2] or "Y" in k[2]) for k in bf["optimal"])
     ties = bf["count"] > 1
@@ -410,12 +515,14 @@ def run_dp(case):
         bf = R.brute_force(c1, c2, mat, go, ge, mode, forbid_adjacent=affine)
         assert (bf["opt"], bf["count"]) == (opt, count), f"reference DP {opt, count} != brute force {bf['opt'], bf['count']}"
         o.label("dp_checked_against_bruteforce")
-    s1, s2, matrix = build(case)
-    res = align.align_optimal(
-        s1, s2, matrix, gap_penalty=gap, terminal_penalty=(mode == "global"), local=(mode == "local"),
-        max_number=case["max_number"],
-    )
-    all_valid, seen, n_empty = check_result(o, case, res, opt, c1, c2, mat, None)
+    label_restriction(o, c1, c2, mat, go, ge, mode, affine, opt)
+    objs = built_or_fail(o, case)
+    if objs is None:
+        return o
+    res = call_align(o, case, *objs)
+    if res is None:
+        return o
+    all_valid, seen, n_empty = check_result(o, case, res, opt, c1, c2, mat, None, objs[2])
     has_gap = any(-1 in col for tr in seen for col in tr)
     ties = count > 1
     if has_gap:
@@ -474,16 +581,64 @@ def st_alphabet_fit(tier):
             "mat": [flat[r * k : (r + 1) * k] for r in range(k)],
             "gap": draw(st_gap()),
             "mode": draw(st.sampled_from(["global", "semiglobal", "local"])),
+            "max_number": draw(st.one_of(st.just(5), st.integers(1, 50), st.just(1000))),
+            "tp": draw(st.booleans()),
+            "omit_defaults": draw(st.booleans()),
+            "share_malph": draw(st.booleans()),
         }
 
     return gen()
 
 
+def _fit_once(o, case, matrix, a1, a2, tag=""):
+    """One call of align_optimal() with sequences over the alphabet objects a1 / a2, judged.
+    Everything built here is local, i.e. released on return."""
+    import biotite.sequence as seq
+
+    gap, go, ge, affine = gap_of(case)
+    malph = case["malph"]
+    mode = case["mode"]
+    s1 = seq.GeneralSequence(a1, case["s1"])
+    s2 = seq.GeneralSequence(a2, case["s2"])
+    fits = malph.startswith(case["alph1"]) and malph.startswith(case["alph2"])
+    in_matrix = all(ch in malph for ch in case["s1"] + case["s2"])
+
+    if fits:
+        res = call_align(o, case, s1, s2, matrix)
+    else:
+        try:
+            res = call_align(o, case, s1, s2, matrix)
+        except Exception as e:  # noqa: BLE001 - "the only requirement is that the alphabets extend": any loud rejection
+            o.label(tag + "rejected_with_" + type(e).__name__)
+            return None
+        o.label(tag + "accepted_although_not_extending")
+        if not in_matrix:
+            o.fail("alphabet_mismatch_rejected", f"{tag}symbols outside the matrix alphabet {malph!r} were aligned: {case['s1']!r} {case['s2']!r}")
+            return None
+    if res is None:
+        return None
+    # symbol-wise reference
+    c1 = [malph.index(ch) for ch in case["s1"]]
+    c2 = [malph.index(ch) for ch in case["s2"]]
+    bf = R.brute_force(c1, c2, case["mat"], go, ge, mode, forbid_adjacent=affine)
+    if not tag:
+        label_restriction(o, c1, c2, case["mat"], go, ge, mode, affine, bf["opt"])
+    # align.score() is only defined for sequences the matrix alphabets extend
+    check_result(o, case, res, bf["opt"], c1, c2, case["mat"], bf, matrix, use_score_fn=fits)
+    return {"count": bf["count"]}
+
+
 def run_alphabet_fit(case):
     """align_optimal() with sequences over an alphabet that is not the matrix alphabet: if the
-    matrix alphabet extends it (same symbols in the same leading positions) the result must be
-    the optimum under symbol-wise scoring; otherwise the documented ValueError ("alphabets do
-    not fit the matrix") - or, at least, never a result scored with the wrong matrix rows."""
+    matrix alphabet extends it (same symbols in the same leading positions) the result must
+    satisfy all clauses under symbol-wise scoring; otherwise a loud rejection (today: ValueError
+    "alphabets do not fit the matrix"; no exception type is documented, any is accepted) - or,
+    at least, never a result scored with the wrong matrix rows.
+
+    The verdict on a pair of sequences must not depend on earlier calls: every case is preceded
+    by a call ("prelude") with the same matrix object but short-lived sequence alphabets of the
+    opposite kind (fitting before a non-fitting case and vice versa), which are released before
+    the alphabet objects of the case proper are created."""
     import biotite.sequence as seq
     import biotite.sequence.align as align
 
@@ -491,52 +646,46 @@ def run_alphabet_fit(case):
     gap, go, ge, affine = gap_of(case)
     malph = case["malph"]
     mode = case["mode"]
-    matrix = align.SubstitutionMatrix(
-        seq.LetterAlphabet(malph), seq.LetterAlphabet(malph), np.array(case["mat"], dtype=np.int32)
-    )
-    s1 = seq.GeneralSequence(seq.LetterAlphabet(case["alph1"]), case["s1"])
-    s2 = seq.GeneralSequence(seq.LetterAlphabet(case["alph2"]), case["s2"])
-    fits = malph.startswith(case["alph1"]) and malph.startswith(case["alph2"])
+    fits1, fits2 = malph.startswith(case["alph1"]), malph.startswith(case["alph2"])
+    fits = fits1 and fits2
     o.label("fits" if fits else "does_not_fit", *[f"kind={k}" for k in case["kinds"]])
-    in_matrix = all(ch in malph for ch in case["s1"] + case["s2"])
+    o.label(mode, "affine" if affine else "linear")
+    if mode == "local" and terminal_flag(case):
+        o.label("local+terminal_penalty")
+    if case.get("max_number") == 1000:
+        o.label("max_number_default_1000")
 
-    def call():
-        return align.align_optimal(
-            s1, s2, matrix, gap_penalty=gap, terminal_penalty=(mode == "global"), local=(mode == "local"), max_number=5
-        )
+    m1 = seq.LetterAlphabet(malph)
+    m2 = m1 if case.get("share_malph") else seq.LetterAlphabet(malph)
+    matrix = align.SubstitutionMatrix(m1, m2, np.array(case["mat"], dtype=np.int32))
 
-    if fits:
-        res = call()
+    # prelude: the opposite kind (reversed alphabet = same letters, k >= 2 distinct ones: does not fit)
+    other = malph[::-1] if fits else malph
+    prelude = dict(case, alph1=other, alph2=other, s1=other[0], s2=other[-1])
+    p1 = seq.LetterAlphabet(other)
+    p2 = seq.LetterAlphabet(other)
+    _fit_once(o, prelude, matrix, p1, p2, tag="prelude_")
+    old = (id(p1), id(p2))
+    # the alphabet object that decides the case is created first, right after the prelude's
+    # alphabet for the same sequence position was released
+    if fits1 and not fits2:
+        del p1, p2
+        a2 = seq.LetterAlphabet(case["alph2"])
+        a1 = seq.LetterAlphabet(case["alph1"])
     else:
-        try:
-            res = call()
-        except ValueError:
-            o.label("rejected_with_ValueError")
-            o.mark_nontrivial()
-            return o
-        o.label("accepted_although_not_extending")
-        if not in_matrix:
-            o.fail("alphabet_mismatch_rejected", f"symbols outside the matrix alphabet {malph!r} were aligned: {case['s1']!r} {case['s2']!r}")
-            return o
-    # symbol-wise reference
-    c1 = [malph.index(ch) for ch in case["s1"]]
-    c2 = [malph.index(ch) for ch in case["s2"]]
-    bf = R.brute_force(c1, c2, case["mat"], go, ge, mode, forbid_adjacent=affine)
-    opt = bf["opt"]
-    o.check(isinstance(res, list) and len(res) >= 1, "reports_a_score", "no alignment returned")
-    for k, ali in enumerate(res):
-        rep = iscore(o, ali.score, f"alignment {k}")
-        if rep is None:
-            continue
-        o.check_eq(rep, opt, "reported_score_is_optimum", f"alignment {k}: symbol-wise optimum for {case['s1']!r}/{case['s2']!r} over {case['alph1']!r}/{case['alph2']!r}, matrix alphabet {malph!r}")
-        trace = [tuple(int(v) for v in row) for row in np.asarray(ali.trace).tolist()]
-        problems = R.validate_trace(trace, len(c1), len(c2), mode == "local")
-        if problems:
-            o.fail("trace_valid", f"alignment {k}: {problems[:3]} trace={trace}")
-            continue
-        mine = R.score_trace(trace, c1, c2, case["mat"], go, ge, terminal_penalty=(mode != "semiglobal"))
-        o.check_eq(mine, rep, "recomputed_score_equals_reported", f"alignment {k} trace={trace}")
-    o.mark_nontrivial(case["alph1"] != malph or case["alph2"] != malph)
+        del p2, p1
+        a1 = seq.LetterAlphabet(case["alph1"])
+        a2 = seq.LetterAlphabet(case["alph2"])
+    if id(a1) in old or id(a2) in old:
+        o.label("alphabet_address_reused")
+
+    info = _fit_once(o, case, matrix, a1, a2)
+    if info is not None:
+        if info["count"] > 1:
+            o.label("ties")
+        if info["count"] > case.get("max_number", 5):
+            o.label("max_number_binding")
+    o.mark_nontrivial(not fits or case["alph1"] != malph or case["alph2"] != malph)
     return o
 
 
@@ -566,7 +715,7 @@ SUBS = [
         quick=1600,
         thorough=50000,
         rule="a sequence alphabet that is not the matrix alphabet itself (prefix, infix, suffix, permutation, superset)",
-        clauses="different alphabets per sequence: optimum under symbol-wise scoring when the matrix alphabet extends them, ValueError otherwise",
+        clauses="different alphabets per sequence: all clauses of bruteforce under symbol-wise scoring when the matrix alphabet extends them, an exception otherwise",
     ),
 ]
 
